@@ -1,4 +1,4 @@
-/- Driver ops for Knapsack.  Ops: knapsack.step, knapsack.state, knapsack.judge, knapsack.bounds -/
+/- Driver ops for Knapsack.  Ops: knapsack.step, knapsack.state, knapsack.judge, knapsack.bounds, knapsack.instance -/
 import JumanjiModel.Bridge.Json
 import JumanjiModel.Env.Knapsack.Model
 import JumanjiModel.Env.Knapsack.Bounds
@@ -30,6 +30,13 @@ def opStep : Op := fun j => do
   let a ← fInt j "action"
   let rnd : Rat → Rat := if f32 then Jx.roundF32 else id
   let (s', ts) := step rnd dense s a
+  -- the rules (L2 `stepL2`) run next to the transliteration; `Props.C09.knapsack_step_eq_spec` says they agree
+  -- on every well-shaped state and in-range action, so a difference here is reported, never hidden
+  if decide (WellShaped s) && decide (0 ≤ a) && decide (a.toNat < s.weights.length) then
+    let (m, mts) := stepL2 rnd dense s a.toNat
+    unless decide (m = s') && mts.stepType == ts.stepType && mts.reward == ts.reward &&
+        mts.discount == ts.discount && decide (mts.obs = ts.obs) do
+      throw "knapsack.step: L1 step and L2 stepL2 differ (theorem knapsack_step_eq_spec would be false here)"
   pure (jObj [("state", jState s'), ("ts", jTimeStep jObs ts), ("valid", jBool (isValid s a))])
 
 /-- {"cfg": {"budget": rat, "tol": rat}, "state": {...}} →
@@ -45,6 +52,7 @@ def opState : Op := fun j => do
               ("legal", jBools ((List.range n).map (fun a => decide (legal s a)))),
               ("obs", jObs (observe s)),
               ("feasible", jBool (feasibleApprox b tol s)),
+              ("solution", jBool (solutionApprox b tol s)),
               ("objective", jRat (packedValue s))])
 
 def getObs (j : Json) : Except String Obs := do
@@ -69,7 +77,24 @@ def jBounds (t : Jm.OB.Table) : Json :=
 /-- {"cfg": {...}} → {leaf path: {"lo": rat|null, "hi": rat|null}}: the proved observation bounds (C01) -/
 def opBounds : Op := fun _ => pure (jBounds obsBounds)
 
+/-- {"cfg": {"num_items": n, "budget": rat, "f32": bool}, "state": reset state} → the generator certificate of
+`Props.C10` (`instanceOK`), conjunct by conjunct.  The implementation stores `total_budget` as float32. -/
+def opInstance : Op := fun j => do
+  let cfg ← field j "cfg"
+  let n ← fNat cfg "num_items"
+  let b ← fRat cfg "budget"
+  let f32 ← fBool cfg "f32"
+  let b' := if f32 then Jx.roundF32 b else b
+  let s ← getState (← field j "state")
+  pure (jObj [("num_items_ok", jBool (decide (s.weights.length = n) && decide (s.values.length = n) &&
+                                      decide (s.packed.length = n))),
+              ("weights_in_unit", jBool (inUnit s.weights)),
+              ("values_in_unit", jBool (inUnit s.values)),
+              ("nothing_packed", jBool (decide (s.packed = List.replicate n false))),
+              ("budget_is_total", jBool (decide (s.remaining = b'))),
+              ("instance_ok", jBool (instanceOK n b' s))])
+
 def ops : List (String × Op) :=
   [("knapsack.step", opStep), ("knapsack.state", opState), ("knapsack.judge", opJudge),
-   ("knapsack.bounds", opBounds)]
+   ("knapsack.bounds", opBounds), ("knapsack.instance", opInstance)]
 end Jb.Knapsack
